@@ -491,3 +491,24 @@ V('C18', 'benign-caddress-nested-ifs', NET, "        if c.protover >= CADDR_TIME
 V('C15', 'benign-merkle-index-conditional', CORE, "i2 = min(i+1, size-1)", "i2 = i+1 if i+1 < size else size-1", 'SILENT', scope='CBlock.build_merkle_tree_from_txids')
 V('C10', 'benign-encode-remainder-quotient', B58, "n, r = divmod(n, 58)", "r = n % 58\n        n = n // 58", 'SILENT', scope='encode')
 V('C12', 'template-order-of-tests-with-index-first', WALLET, "            if (len(scriptPubKey) == 35 # compressed\n                  and scriptPubKey[0]  == 0x21", "            if (scriptPubKey[0]  == 0x21\n                  and len(scriptPubKey) == 35 # compressed", 'C12.I2', scope='P2PKHBitcoinAddress.from_scriptPubKey')
+
+# ------------------------------------------------------------------------------------------------ rules added after the fourth round of defects
+V('C07', 'multisigverify-failure-built-with-a-message', EVAL, "                err_raiser(VerifyOpFailedError, opcode)", "                err_raiser(VerifyOpFailedError, opcode, \"not enough valid signatures\")", 'C07.A1', scope='_CheckMultiSig')
+V('C01', 'locktime-read-relabels-truncation', CORE, "            nLockTime = struct.unpack(b\"<I\", ser_read(f,4))[0]\n            return cls(vin, vout, nLockTime, nVersion, wit)",
+  "            try:\n                nLockTime = struct.unpack(b\"<I\", ser_read(f,4))[0]\n            except SerializationError:\n                raise ValueError('truncated witness transaction')\n            return cls(vin, vout, nLockTime, nVersion, wit)", 'C01.E1', scope='CTransaction.stream_deserialize')
+V('C18', 'body-read-relabels-truncation', MSG, "        recvbuf += ser_read(f, msglen)\n", "        try:\n            recvbuf += ser_read(f, msglen)\n        except SerializationError as err:\n            raise ValueError('Invalid message length %d: %s' % (msglen, err))\n", 'C18.D1', scope='MsgSerializable.stream_deserialize')
+V('C09', 'immutable-hash-taken-from-gethash', SER, "_cached__hash__ = hash(self.serialize())", "_cached__hash__ = hash(self.GetHash())", 'C09.R3', scope='ImmutableSerializable.__hash__')
+V('C09', 'eq-type-guard-de-morgan-slip', SER, "if (not isinstance(other, self.__class__) and\n            not isinstance(self, other.__class__)):", "if not (isinstance(other, self.__class__) and\n            isinstance(self, other.__class__)):", 'C09.T5', scope='Serializable.__eq__')
+V('C10', 'decode-strips-white-space', B58, "    if not s:\n        return b''\n\n    # Convert the string to an integer", "    s = s.strip()\n    if not s:\n        return b''\n\n    # Convert the string to an integer", 'C10.A1', scope='decode')
+V('C10', 'revert-F17-short-string-guard', B58, "        if len(k) < 5:\n            # a version byte and a four-byte checksum: with fewer bytes the slices below overlap\n            raise Base58ChecksumError('Base58 string too short to hold a version byte and checksum: %d bytes' % len(k))\n", "", 'C10.L1', scope='CBase58Data.__new__')
+V2('C12', 'witness-version-test-moved-behind-length', [(WALLET, "        if witver != 0:\n            raise CBitcoinAddressError('witness version %d not supported' % witver)\n        self = super(CBech32BitcoinAddress, cls).from_bytes(", "        self = super(CBech32BitcoinAddress, cls).from_bytes(", 'CBech32BitcoinAddress.from_bytes'),
+                                                       (WALLET, "        elif len(self) == 20:\n            self.__class__ = P2WPKHBitcoinAddress\n        else:\n            raise CBitcoinAddressError('witness program does not match any known segwit address format')",
+                                                        "        elif len(self) == 20:\n            self.__class__ = P2WPKHBitcoinAddress\n        elif witver != 0:\n            raise CBitcoinAddressError('witness version %d not supported' % witver)\n        else:\n            raise CBitcoinAddressError('witness program does not match any known segwit address format')", 'CBech32BitcoinAddress.from_bytes')], 'C12.D1')
+V('C13', 'from-secret-bytes-drops-the-flag', WALLET, "        self.__init__(None)\n        return self", "        CKey.__init__(self, secret)\n        return self", 'C13.L1', scope='CBitcoinSecret.from_secret_bytes')
+V('C16', 'commitment-index-first-match', CORE, "                commit_pos = index\n        if commit_pos is None:\n            raise ValueError('The witness commitment is missed')\n        return commit_pos", "                return index\n        raise ValueError('The witness commitment is missed')", 'C16.D1', scope='CBlock.get_witness_commitment_index')
+V('C17', 'renormalisation-only-for-long-values', SER, "        compact = compact & 0xFFFFFF\n\n    # If the sign bit (0x00800000) is set, divide the mantissa by 256 and\n    # increase the exponent to get an encoding without it set.\n    if compact & 0x00800000:\n        compact >>= 8\n        nbytes += 1\n",
+  "        compact = compact & 0xFFFFFF\n        if compact & 0x00800000:\n            compact >>= 8\n            nbytes += 1\n", 'C17.F2', scope='compact_from_uint256')
+V('C17', 'limb-loop-stops-at-zero-word', SER, "    for i in range(8):\n        r += t[i] << (i * 32)", "    for i in range(8):\n        if not t[i]:\n            break\n        r += t[i] << (i * 32)", 'C17.L1', scope='uint256_from_str')
+V('C19', 'listunspent-conversions-behind-the-address', RPC, "            except KeyError:\n                pass\n            unspent['scriptPubKey'] = CScript(unhexlify_str(unspent['scriptPubKey']))\n            unspent['amount'] = int(unspent['amount'] * COIN)",
+  "                unspent['scriptPubKey'] = CScript(unhexlify_str(unspent['scriptPubKey']))\n                unspent['amount'] = int(unspent['amount'] * COIN)\n            except KeyError:\n                pass", 'C19.T1', scope='Proxy.listunspent')
+V('C20', 'insert-stops-at-a-saturated-byte', BLOOM, "            nIndex = self.bloom_hash(i, elem)\n            # Sets bit nIndex of vData", "            nIndex = self.bloom_hash(i, elem)\n            if self.vData[nIndex >> 3] == 0xff:\n                break\n            # Sets bit nIndex of vData", 'C20.N1', scope='CBloomFilter.insert')
